@@ -429,8 +429,9 @@ def families(pid, tier, rng):
     if pid == "C33":
         base = c33_plans(NODES3, False)
         if tier == "quick":
-            cs = fam_c33_seq(shapes(["diamond"]), NODES3, (1,), ["one"], base[:3])
-            cs += fam_c33_seq(shapes(["chain"]), NODES3, (2,), ["one"], [base[0], base[2], base[3]])
+            cs = fam_c33_seq(shapes(["diamond"]), NODES3, (1,), ["one"], [base[0], base[2]])
+            cs += fam_c33_seq(shapes(["chain"]), NODES3, (2,), ["one"], [base[0], base[3]])
+            cs += fam_c33_seq(shapes(["chain"]), NODES3, (1,), ["one"], [base[1], base[2]])
             mc.append(("c33seq", NODES3, cs, True))
             ro.append(("c33all", NODES3, fam_c33_seq(dag3, NODES3, (1, 2, 3), ["one", "single"], c33_plans(NODES3, True))))
         else:
@@ -513,7 +514,7 @@ def run(pid, tier, replay=None):
     # 1. model checking: all interleavings, properties from the statements, liveness under weak fairness
     for name, nodes, cases, live in mc:
         got = []
-        model_check(wd, name, nodes, cases, acc, WORKERS, liveness=live, timeout=1500 if thorough else 170,
+        model_check(wd, name, nodes, cases, acc, WORKERS, liveness=live, timeout=2400 if thorough else 900,
                     export_sink=got.append)
         if len(got) != len(cases):
             raise vf.MachineryError("family %s: %d cases, %d exported" % (name, len(cases), len(got)))
